@@ -183,7 +183,7 @@ func vpLockEvents(reset bool) int                       { return 0 }
 func vpOneCriticalSection() bool        { return true }
 func vpSelectFirst(on bool)             {}
 func vpBlockedIsViolation(label string) {}
-func vpYield()                          { runtime.Gosched(); time.Sleep(time.Millisecond) }
+func vpYield()                          { runtime.Gosched(); time.Sleep(2 * time.Millisecond) }
 func vpIsOpaqueStr(s string) bool       { return false }
 func vpNote(s string)                   { vpObs = append(vpObs, s) }
 func vpNoteInt64(tag string, v int64)   { vpObs = append(vpObs, fmt.Sprintf("%s=%d", tag, v)) }
